@@ -47,7 +47,7 @@ func newEngine() (*Engine, error) {
 		notes: map[string]bool{}, modsets: map[*ssa.Function]*ModSet{}, externs: map[string]externFn{}, heapSorts: map[string]string{},
 		loopCache: map[*ssa.Function]map[*ssa.BasicBlock]*loopInfo{}, usedExterns: map[string]bool{}, usedContracts: map[string]bool{},
 		externMods: map[string][]string{}, pureExterns: map[string]bool{}, inlineExtern: map[string]bool{}, ifaceIDs: map[string]int{},
-		extFuncs: map[string]string{}, fset: fset, evalExt: map[string]map[string]bool{}, evalSym: map[string]string{}, globalConst: map[string]string{}}
+		extFuncs: map[string]string{}, fset: fset, evalExt: map[string]map[string]bool{}, evalSym: map[string]string{}, globalConst: map[string]string{}, srcCache: map[string][]string{}, hookHits: map[string]bool{}, sendSites: map[string][]token.Pos{}}
 	for _, p := range prog.AllPackages() {
 		e.pkgs[p.Pkg.Path()] = p
 		e.allTypesPkgs = append(e.allTypesPkgs, p.Pkg)
@@ -151,6 +151,27 @@ func (e *Engine) verifyFunc(name string) *FuncReport {
 		}()
 		x.verify()
 	}()
+	if fn.Blocks != nil {
+		nl := len(e.loopsOf(fn))
+		for ord := range c.Loops {
+			if ord > nl {
+				x.obls = append(x.obls, &Obligation{Name: fmt.Sprintf("%s/loop%d-missing", name, ord), Func: name, Kind: "hook", Goal: "false", Props: c.Props, Status: "failed", Structural: true,
+					Output: fmt.Sprintf("the contract has an invariant for loop %d but the function has only %d loops", ord, nl)})
+			}
+		}
+	}
+	for _, h := range c.Ats {
+		if !e.hookHits[c.Name+"|"+h.Src] {
+			x.obls = append(x.obls, &Obligation{Name: name + "/at-hook-unmatched@" + h.Pattern, Func: name, Kind: "hook", Goal: "false", Props: c.Props, Status: "failed", Structural: true,
+				Output: "no executed source line contains the text of this `at` hook: " + h.Src})
+		}
+	}
+	for _, cl := range c.Sites {
+		if !e.hookHits[c.Name+"|site "+cl.Label] {
+			x.obls = append(x.obls, &Obligation{Name: name + "/site-unmatched@" + cl.Label, Func: name, Kind: "hook", Goal: "false", Props: c.Props, Status: "failed", Structural: true,
+				Output: "no send site matches this `site` clause"})
+		}
+	}
 	rep.Obligations = x.obls
 	rep.Errors = append(rep.Errors, x.errs...)
 	rep.Paths = x.covered
